@@ -922,7 +922,22 @@ func (d *Decoder) attachAnnotations(v reflect.Value) error {
 			if err != nil {
 				return err
 			}
-			subValue.Set(reflect.ValueOf(annotations))
+			switch {
+			case reflect.TypeOf(annotations).AssignableTo(subValue.Type()):
+				subValue.Set(reflect.ValueOf(annotations))
+			case reflect.TypeOf([]string(nil)).AssignableTo(subValue.Type()):
+				var texts []string
+				for _, a := range annotations {
+					if a.Text == nil {
+						return fmt.Errorf("ion: cannot decode annotation with unknown text ($%v) to string", a.LocalSID)
+					}
+					texts = append(texts, *a.Text)
+				}
+				subValue.Set(reflect.ValueOf(texts))
+			default:
+				return fmt.Errorf("ion: annotations field of %v must be of type []SymbolToken or []string, not %v",
+					v.Type().String(), subValue.Type().String())
+			}
 			break
 		}
 	}
